@@ -68,6 +68,15 @@ class World:
         self.register_strings(value)
         self.ops.append(("unknown", value, -1 if source is None else self.u(source)))
 
+    def webfinger(self, name):
+        """name: bytes typed after '@'"""
+        self.ops.append(("webfinger", list(name)))
+
+    def webfinger_url(self, k, account):
+        """the URL client.ResolveWebfinger requests for account@host(k) (Go's url.QueryEscape == quote_plus with nothing safe)"""
+        import urllib.parse
+        return "https://%s/.well-known/webfinger?resource=%s" % (self.host(k), urllib.parse.quote_plus("acct:%s@%s" % (account, self.host(k)), safe=""))
+
     def register_strings(self, v):
         """every string that may be parsed as a URL/reference must be in the universe"""
         if isinstance(v, str):
@@ -91,10 +100,13 @@ class World:
         for o in self.ops:
             if o[0] == "fetch":
                 toks += [0, o[1]]
+            elif o[0] == "webfinger":
+                toks += [4, len(o[1])] + list(o[1])
             else:
                 toks += [1] + jsongen.to_tokens(o[1]) + [o[2]]
         meta = {"universe": self.universe, "entries": [(self.universe[ui], resp.decode("latin-1"), fin) for ui, resp, fin in self.entries],
                 "modes": self.modes, "ops": [list(o[:1]) + [json.dumps(jsonable(x)) if not isinstance(x, int) else x for x in o[1:]] for o in self.ops]}
+        meta["ops"] = [o if o[0] != "webfinger" else ["webfinger", bytes(json.loads(o[1])).decode("latin-1")] for o in meta["ops"]]
         meta.update(self.meta)
         if extra_meta:
             meta.update(extra_meta)
